@@ -195,8 +195,12 @@ pub fn check_life(c: &LifeCase, info: &mut CaseInfo) -> Result<(), String> {
 }
 
 pub fn life_strategy(menu: gen::ConfigMenu) -> BoxedStrategy<LifeCase> {
+    life_strategy_n(menu, 10)
+}
+
+pub fn life_strategy_n(menu: gen::ConfigMenu, max_steps: usize) -> BoxedStrategy<LifeCase> {
     gen::config(menu)
-        .prop_flat_map(|cfg| {
+        .prop_flat_map(move |cfg| {
             // drawing calls are generated for both logical shapes; the interpreter of the case clips anyway,
             // so calls generated for the other shape simply act as partly out-of-bounds calls
             let (w, h) = (cfg.w as u32, cfg.h as u32);
@@ -206,7 +210,7 @@ pub fn life_strategy(menu: gen::ConfigMenu) -> BoxedStrategy<LifeCase> {
                 3 => gen::op_wild(h, w).prop_map(LOp::Draw),
                 1 => any::<u8>().prop_map(LOp::Noise),
             ];
-            (Just(cfg), proptest::collection::vec(op, 1..=10))
+            (Just(cfg), proptest::collection::vec(op, 1..=max_steps))
         })
         .prop_map(|(cfg, ops)| {
             // set_pixel / set_pixels are only defined for in-bounds coordinates: turn those generated for
@@ -311,6 +315,13 @@ pub fn run(ctx: &Ctx) -> Report {
         format!("c10:life:{}", if r.contains("although no drawing") { "stray" } else if r.contains("puts") { "placement" } else { "other" })
     });
     rep.sections.push(sec);
+    if ctx.tier == super::Tier::Thorough {
+        let mut sec = Section::new(&format!("life-cycle-long[{}]", ctx.variant), "as life-cycle, histories of up to 40 steps");
+        run_generated(&mut sec, ctx.seed ^ 0x22fe, ctx.cases(0, 300_000), ctx.workers, || life_strategy_n(gen::ConfigMenu::all_transports(), 40), check_life, |_, r| {
+            format!("c10:life:{}", if r.contains("although no drawing") { "stray" } else if r.contains("puts") { "placement" } else { "other" })
+        });
+        rep.sections.push(sec);
+    }
     rep
 }
 
